@@ -152,7 +152,7 @@ func c05R2(c *Ctx, rule string) {
 	if okB && bsl.X == buf && bsl.Low == nil && bsl.High != nil {
 		d = Expr(bsl.High)
 		if call, ok := stripConv(bsl.High).(*ssa.Call); ok && strings.Contains(calleeName(&call.Call), "bigEndian).Uint16") {
-			l2, h2, ok2 := constSliceOf(call.Call.Args[len(call.Call.Args)-1], buf)
+			l2, h2, ok2 := constRangeOf(call.Call.Args[len(call.Call.Args)-1], buf)
 			okLen = ok2 && l2 == 3 && h2 == 5 && instrDominates(hdr, call)
 		} else if lo, n, loads, okR := beRead(stripIntWiden(stripConv(bsl.High)), buf); okR {
 			// int(buffer[3])<<8 | int(buffer[4])
@@ -337,6 +337,19 @@ func c05R4(c *Ctx, rule string) {
 			lenBytes = lenBytes && len(seq) == 3
 		}
 	}
+	if !(lenBytes && payload) {
+		// the same on the flattened bytes of what is written (bseq.go): ⟨pooled prefix⟩ ‖ BE16(len(in)) ‖ ⟨in⟩, however
+		// the appends are grouped or which helper performs them
+		ev := newBsEval(p)
+		if q, okQ := ev.eval(written); okQ && len(q) == 3 {
+			pre, ln, body := q[0], q[1], q[2]
+			if pre.Kind == "sym" && pre.Src == bufPtr && pre.Lo == 0 &&
+				ln.Kind == "belen" && ln.N == 2 && stripConv(ln.Src) == in &&
+				body.Kind == "sym" && body.Src == in && body.Lo == 0 && body.Hi < 0 {
+				lenBytes, payload = true, true
+			}
+		}
+	}
 	c.Check(lenBytes && payload, rule, "record = prefix ‖ byte(len>>8) ‖ byte(len&0xff) ‖ payload", c.atFn(w), "append(hi, lo) then append(in...)", fmt.Sprintf("length bytes from len(in) found=%v, payload appended=%v", lenBytes, payload))
 	// the prefix survives: every value stored into the pooled cell is built on the pooled buffer itself
 	// (append(*writeBuf, …), (*writeBuf)[:k]) or is a fresh buffer that first receives the pooled prefix
@@ -371,6 +384,10 @@ func c05R4(c *Ctx, rule string) {
 	var atD ssa.Instruction
 	allInstrs(w, func(i ssa.Instruction) {
 		if st, ok := i.(*ssa.Store); ok && st.Addr == bufPtr && !derived(st.Val) {
+			// flattened: the value starts with the pooled content from its first byte
+			if q, okQ := newBsEval(p).eval(st.Val); okQ && len(q) > 0 && q[0].Kind == "sym" && q[0].Src == bufPtr && q[0].Lo == 0 {
+				return
+			}
 			okDerived, atD = false, i
 			whyD = "the pooled buffer is replaced by " + Expr(st.Val) + ", which is not built on the pooled buffer: the record prefix (type 23, version 3.3) written once by the pool constructor is lost for this and every later record that reuses the buffer"
 		}
